@@ -74,12 +74,6 @@ Definition set_inode (t : sworld) (i : N) (c : bytes) : sworld :=
 Definition set_shs (t : sworld) (l : list (N * shnd)) : sworld :=
   {| names := names t; inodes := inodes t; next_ino := next_ino t; shs := l |}.
 
-(* std::fs::OpenOptions validation (get_access_mode / get_creation_mode) *)
-Definition valid_open (r w a t c n : bool) : bool :=
-  (r || w || a)
-  && (w || a || negb (t || c || n))
-  && negb (a && t && negb n).
-
 (* pwrite on a byte vector: nothing for empty data *)
 Definition pwrite (c : bytes) (off : nat) (data : bytes) : bytes :=
   match data with [] => c | _ => write_bytes c off data end.
